@@ -44,12 +44,16 @@ def src_lines(g, nsrc, rot=0):
         # the exception raised at run time carries a line number of its own (a SyntaxError from compile(): line 1 of THAT text,
         # a json error likewise): the reported line is the line of the doctest statement
         return ['>>> y%d = [1,' % g, '...       2]', ">>> print(eval(compile('1 +' if %d == 2 else '1', 'inner text', 'eval')))" % g]
+    if rot % 7 in (1, 5):
+        # a statement the parser accepts and compile() rejects (return / break outside a function or loop): the error is raised
+        # when the part is compiled; its column must not be mistaken for its line
+        return ['>>> y%d = [1,' % g, '...       2]', ('>>> if y%d: return y%d' % (g, g) if rot % 7 == 1 else '>>> break') if g == 2 else '>>> print(1)']
     return ['>>> y%d = [1,' % g, '...       2]', '>>> print(1 // (2 - %d))' % g][:nsrc]
 
 
 def src_fail_type(nsrc, rot=0):
     """name of the exception a failing group raises"""
-    if nsrc == 3 and rot % 3 not in (1, 2) and rot % 7 == 3:
+    if nsrc == 3 and rot % 3 not in (1, 2) and rot % 7 in (1, 3, 5):
         return 'SyntaxError'
     return 'ZeroDivisionError'
 
@@ -102,6 +106,11 @@ CLAUSE_PRE = {'exc': ['try: raise ValueError("clause")'], 'telse': ['try: pass',
 CLAUSE_HEAD = {'exc': 'except ValueError:', 'telse': 'else:', 'fin': 'finally:', 'case': ' case 1:', 'ifelse': 'else:', 'forelse': 'else:', 'for': 'for _xdv in [0]:'}
 
 
+IF_TESTS = ['if True:', "if __import__('sys').version_info >= (3, 0):", "if __name__ != '__main__':", 'if 1 == 1:', "if '__main__' != __name__:",
+            "if not __name__ == '__main__':", 'if 0 < 1 < 2:', "if __name__ == __name__ != '__main__':", "if __name__ in (__name__, '__main__'):",
+            "if len('__main__') == 8:", "if __name__ == '__main__' or True:"]
+
+
 def render(case, rot=0):
     """-> list of file lines"""
     items = case['items']
@@ -150,7 +159,9 @@ def render(case, rot=0):
                         base = item_name(items, earlier[rot % len(earlier)])
                 out.append(ind + 'class %s(%s):' % (name, base))
             elif k == 'iftrue':
-                out.append(ind + 'if True:')
+                # any condition that is not the main guard (all true at import): comparisons whose left side is not a name,
+                # comparisons of __name__ that are not `== '__main__'`, chained and negated ones
+                out.append(ind + IF_TESTS[(rot + it) % len(IF_TESTS)])
             elif k == 'ifmain':
                 out.append(ind + ["if __name__ == '__main__':", 'if __name__ == "__main__":'][rot % 2])
             elif k == 'try':
